@@ -28,6 +28,25 @@ MODULUS = {'millisecond': 1000, 'second': 60, 'minute': 60, 'hour': 24, 'month':
 CARRY_TO = {'millisecond': 'second', 'second': 'minute', 'minute': 'hour', 'hour': 'day', 'month': 'year'}
 
 
+def check_datetime_new_sim(chk, rule='C16.M'):
+    """primary: datetimeNew evaluated (E6l) on concrete component lists against proleptic-Gregorian calendar arithmetic -> True when every run agrees"""
+    from .. import libsim
+    libfuncs = {f.name: f for f in library_functions(chk.repo, rule)}
+    cache = getattr(chk, '_dtnew_sim', None)
+    if cache is None:
+        cache = chk._dtnew_sim = libsim.run_datetime_new(chk.repo, libfuncs, chk.tier, rule)
+    n, problems = cache
+    lf = libfuncs['datetimeNew']
+    if problems:
+        kinds = sorted({p[0] for p in problems})
+        first = problems[0]
+        chk.bad(rule, lf.mod, lf.pyname, first[1][:110], f'evaluation of datetimeNew on {n} component lists: {first[1]} ({len(problems)} runs deviate; kinds: {", ".join(kinds)})', node=lf.func)
+        return False
+    chk.ok(rule, f'datetimeNew evaluated on {n} component lists (months -13..25, days -10000..10000, hours / minutes / seconds / milliseconds far out of range, leap and '
+           f'non-leap years, each spelled with host ints and with floats): the constructed datetime is what proleptic-Gregorian calendar arithmetic gives', count=n)
+    return True
+
+
 def check_carry(chk):
     lf = next(f for f in library_functions(chk.repo, 'C16.M') if f.name == 'datetimeNew')
     func = lf.func
@@ -382,7 +401,11 @@ def run(chk):
     chk.rule('C16.P', 'the ISO parser is total (returns None instead of raising)', floor=3)
     chk.assumptions += ['host calendar/datetime arithmetic (calendar.monthrange, datetime +/- timedelta, .astimezone()) is correct; the process zone has a whole-minute offset',
                         'the quantifier over time zones and correctness of roll-over for all component values are NOT decided']
-    chk.guard('C16.M', check_carry, chk)
+    sim = chk.guard('C16.M', check_datetime_new_sim, chk)
+    if sim:
+        chk.advisory('C16.M', check_carry, chk)
+    else:
+        chk.guard('C16.M', check_carry, chk)
     chk.guard('C16.G', check_getters, chk)
     chk.guard('C16.N', check_normalize, chk)
     chk.guard('C16.I', check_iso, chk)
